@@ -2,7 +2,7 @@
    This file holds only the statements; each is closed by `exact` of a lemma proved in
    TermId/Proofs.v or Base/Ord.v. *)
 From Coq Require Import String Ascii List Bool ZArith.
-From Hpotk Require Import Base.Result Base.Str Base.Ord TermId.Model TermId.Proofs.
+From Hpotk Require Import Base.Result Base.Str Base.Ord TermId.Model TermId.Proofs TermId.Injective.
 Import ListNotations.
 Open Scope string_scope.
 
@@ -29,6 +29,22 @@ Theorem C04_value_reparse : forall s t,
   value t = prefix t ++ ":" ++ ident t /\
   exists t', from_curie (value t) = Ok t' /\ teqb t t' = true /\ value t' = value t /\ tkey t' = tkey t.
 Proof. exact (fun s t H => conj eq_refl (value_reparse s t H)). Qed.
+
+(* parsing does not normalise: CURIEs that parse to equal TermIds are the same text up to the delimiter character, and
+   the very same text when both use ':' (or both '_') - other zero padding, a sign, blanks, digit separators, other
+   digits or another letter case never denote the same id *)
+Theorem C04_parse_does_not_normalise : forall s s' t t',
+  from_curie s = Ok t -> from_curie s' = Ok t' -> teqb t t' = true ->
+  (smem colon s = smem colon s' -> s = s') /\
+  exists p i d d', s = p ++ String d i /\ s' = p ++ String d' i /\ (d = colon \/ d = underscore) /\ (d' = colon \/ d' = underscore).
+Proof.
+  exact (fun s s' t t' H H' E =>
+    conj (fun C => match smem colon s as b return smem colon s = b -> s = s' with
+                   | true => fun C1 => parse_injective_colon s s' t t' H H' C1 (eq_trans (eq_sym C) C1) E
+                   | false => fun C1 => parse_injective_underscore s s' t t' H H' C1 (eq_trans (eq_sym C) C1) E
+                   end eq_refl)
+         (parse_equal_means_same_parts s s' t t' H H' E)).
+Qed.
 
 (* equality is equality of (prefix, id), whatever the delimiter, stored string or class *)
 Theorem C04_eq_iff : forall t u, teqb t u = true <-> (prefix t = prefix u /\ ident t = ident u).
